@@ -75,7 +75,8 @@ ConjIsProduct == Conj(M, p) = MatMul(P, MatMul(M, Transpose(P)))
 ConjInvIsProduct == Conj(M, InvPerm(p)) = MatMul(Transpose(P), MatMul(M, P))
 ConjCompose == Conj(Conj(M, p), q) = Conj(M, Comp(p, q))
 ConjUndo == Conj(Conj(M, p), InvPerm(p)) = M
-SwapLaws == \A i, j \in Idx :
+\* (they do not depend on p, q: evaluated once per matrix)
+SwapLaws == (p = IdP /\ q = IdP) => \A i, j \in Idx :
               LET S == TLCEval(PermMat(SwapPerm(i, j))) IN
               /\ S = Transpose(S) /\ MatMul(S, S) = IdMat(N)
               /\ (i # j => DetOf(S) = Neg1) /\ (i = j => S = IdMat(N))
@@ -90,7 +91,7 @@ SortLaws == DistinctModuli(ev) =>
 (***************************************************************************)
 Obs == [n |-> N, p |-> p, q |-> q, M |-> M,
         P |-> P, Pinv |-> Transpose(P),
-        conj |-> Conj(M, p), conjinv |-> Conj(M, InvPerm(p)),
+        conj |-> Conj(M, p), conjinv |-> Conj(M, InvPerm(p)), conjpq |-> Conj(Conj(M, p), q),
         swaps |-> {<<i, j, PermMat(SwapPerm(i, j))>> : i \in Idx, j \in Idx},
         ev |-> ev, evdom |-> DistinctModuli(ev),
         evsorted |-> [k \in 1..N |-> ev[SortPerm(ev)[k] + 1]],
